@@ -146,7 +146,26 @@ def activate():
     for m in list(sys.modules):
         if m == 'pysph' or m.startswith('pysph.'):
             raise RuntimeError('pysph imported before build.activate()')
+    _patch_compyle_lock()
     return wd, home
+
+
+def _patch_compyle_lock():
+    """compyle's per-module build lock gives up after 90 s and then lets
+    two processes build (and unlock) the same module; with 16 workers
+    compiling identical sources that is easily exceeded.  Wait longer."""
+    try:
+        from compyle import ext_module
+    except Exception:
+        return
+    orig = ext_module.ExtModule._lock
+    if getattr(orig, '_verif_patched', False):
+        return
+
+    def _lock(self, timeout=3600):
+        return orig(self, timeout)
+    _lock._verif_patched = True
+    ext_module.ExtModule._lock = _lock
 
 
 if __name__ == '__main__':
